@@ -121,6 +121,12 @@ class P:
             return P({(): abs(s.t[()])})
         raise ShadowUnsupported("absolute value of a non-constant polynomial")
 
+    def __format__(s, spec):
+        # formatting a value (a log line, a cache key built from text) is not arithmetic a polynomial can follow
+        if spec:
+            raise ShadowUnsupported("format(%r) of a polynomial" % spec)
+        return str(s)
+
     def __lt__(s, o):
         raise ShadowUnsupported("ordering comparison on a polynomial")
     __le__ = __gt__ = __ge__ = __lt__
